@@ -4,9 +4,9 @@ import (
 	"fmt"
 	"go/constant"
 	"go/token"
-	"strconv"
 	"go/types"
 	"sort"
+	"strconv"
 	"strings"
 
 	"golang.org/x/tools/go/ssa"
@@ -543,11 +543,11 @@ type Query struct {
 	// EdgeHook, if set, transforms assignments flowing along edge b -> b.Succs[k] (after the edge
 	// condition was applied, before phi assignment).  Return nil for "no change".
 	EdgeHook func(b *ssa.BasicBlock, k int) func(a uint32) []uint32
-	In      map[*ssa.BasicBlock][]uint64
-	nWords  int
-	Iter    int
-	pat     map[int][]uint64
-	fullC   []uint64
+	In       map[*ssa.BasicBlock][]uint64
+	nWords   int
+	Iter     int
+	pat      map[int][]uint64
+	fullC    []uint64
 }
 
 const MaxTracked = 18
@@ -561,13 +561,15 @@ func (A *Analysis) NewQuery(track []int) (*Query, error) {
 			A.Cond(ifi.Cond)
 		}
 	}
-	// translate every boolean phi operand so that derived flags exist as atoms before the closure
-	for n := -1; n != len(A.Atoms); {
-		n = len(A.Atoms)
-		for i := 0; i < len(A.Atoms); i++ {
-			if ph := A.Atoms[i].Phi; ph != nil {
-				for _, e := range ph.Edges {
-					A.Cond(e)
+	A.Prepare()
+	if false {
+		for n := -1; n != len(A.Atoms); {
+			n = len(A.Atoms)
+			for i := 0; i < len(A.Atoms); i++ {
+				if ph := A.Atoms[i].Phi; ph != nil {
+					for _, e := range ph.Edges {
+						A.Cond(e)
+					}
 				}
 			}
 		}
@@ -1164,4 +1166,24 @@ func (q *Query) InitWith(vals map[int]bool) []uint64 {
 		s = q.Filter(s, f)
 	}
 	return s
+}
+
+// Prepare translates every branch condition and every boolean phi operand of the function, so that
+// all atoms (including derived flags and the values they are computed from) exist.
+func (A *Analysis) Prepare() {
+	for _, b := range A.Fn.Blocks {
+		if ifi, ok := b.Instrs[len(b.Instrs)-1].(*ssa.If); ok {
+			A.Cond(ifi.Cond)
+		}
+	}
+	for n := -1; n != len(A.Atoms); {
+		n = len(A.Atoms)
+		for i := 0; i < len(A.Atoms); i++ {
+			if ph := A.Atoms[i].Phi; ph != nil {
+				for _, e := range ph.Edges {
+					A.Cond(e)
+				}
+			}
+		}
+	}
 }
